@@ -431,6 +431,21 @@ pub fn parsefocus(max_len: usize, out: &mut Out) {
             }
         }
     }
+    // token-level enumeration: every sequence of up to `max_len - 3` syntactic tokens after the leading slash — whole
+    // parameters, escaped delimiters, group brackets, literals — reaches shapes a character-level sweep of the same cost
+    // cannot (an escaped brace right before a parameter that follows another parameter, a group between two parameters, …)
+    let toks = ["{a}", "{b}", "{a:alpha}", "{*w}", "\\{", "\\}", "\\(", "\\)", "\\\\", "(", ")", "/", "x", "{", "}"];
+    let tlen = max_len.saturating_sub(3).max(3);
+    for s in all_strings(&toks, tlen) {
+        if !out.mine() {
+            continue;
+        }
+        if s.is_empty() {
+            continue;
+        }
+        let t = format!("/{s}");
+        out.op(format!("parse {}", hex(t.as_bytes())));
+    }
     // three-parameter templates: a duplicate check that only compares neighbours needs twelve symbols
     for s in ["/{a}/{b}/{a}", "/{a}/{a}/{b}", "/{a}.{b}.{a}", "/{*a}/{b}/{a:u8}", "/{a}/{b}{c}", "/{a}{b}/{c}", "/{a}/{b}/{c}{a}"] {
         out.op(format!("parse {}", hex(s.as_bytes())));
